@@ -44,7 +44,20 @@ Definition gexp (r : list Z) : option Z :=
       else None
   end.
 
-Definition gparse (s0 : list Z) : option gvalue :=
+(* the decimal-part [exponent-part] alternative; gx recognises the exponent-part (or the end of the string) *)
+Definition gnum (gx : list Z -> option Z) (ng : bool) (s : list Z) : option gvalue :=
+  let '(v1, n1, r1) := span_digits s 0 0 in
+  let nopoint := if n1 >? 0 then match gx r1 with Some e => Some (GNum ng v1 e) | None => None end else None in
+  match r1 with
+  | b :: r2 =>
+      if b =? 46 then
+        let '(v2, n2, r3) := span_digits r2 v1 0 in        (* fraction digits continue the coefficient *)
+        if n1 + n2 >? 0 then match gx r3 with Some e => Some (GNum ng v2 (e - n2)) | None => None end else None
+      else nopoint
+  | [] => nopoint
+  end.
+
+Definition gparse_with (gx : list Z -> option Z) (s0 : list Z) : option gvalue :=
   let '(ng, s) := strip_sign s0 in
   match lit_eqb s [105; 110; 102; 105; 110; 105; 116; 121] with Some [] => Some (GInf ng) | _ =>
   match lit_eqb s [105; 110; 102] with Some [] => Some (GInf ng) | _ =>
@@ -53,15 +66,10 @@ Definition gparse (s0 : list Z) : option gvalue :=
   | None =>
   match lit_eqb s [115; 110; 97; 110] with
   | Some r => let '(_, _, rest) := span_digits r 0 0 in match rest with [] => Some (GNaN ng true) | _ => None end
-  | None =>
-      let '(v1, n1, r1) := span_digits s 0 0 in
-      match r1 with
-      | 46 :: r2 =>
-          let '(v2, n2, r3) := span_digits r2 v1 0 in        (* fraction digits continue the coefficient *)
-          if n1 + n2 >? 0 then match gexp r3 with Some e => Some (GNum ng v2 (e - n2)) | None => None end else None
-      | _ => if n1 >? 0 then match gexp r1 with Some e => Some (GNum ng v1 e) | None => None end else None
-      end
+  | None => gnum gx ng s
   end end end end.
+
+Definition gparse (s0 : list Z) : option gvalue := gparse_with gexp s0.
 
 (* the package limits: exponent and adjusted exponent of the parsed value within +-100000 *)
 Definition within_limits (coeff e : Z) : bool :=
